@@ -4,6 +4,7 @@ import (
 	"crypto/sha256"
 	"encoding/binary"
 	"encoding/hex"
+	"encoding/json"
 	"fmt"
 	"math/rand"
 	"os"
@@ -60,6 +61,7 @@ type reqScn struct {
 	nrep  int
 	last  []byte // last injected reply
 	lastP string
+	el    time.Duration // virtual time elapsed (for the absolute "advto" steps of TLC-generated scenarios)
 }
 
 func digest(b []byte) string {
@@ -259,8 +261,38 @@ func (c *reqScn) step(st string) {
 	case "adv":
 		d, _ := time.ParseDuration(arg(1))
 		s.Adv(d)
+		c.el += d
 		c.snap()
 		return
+	case "advto":
+		// advto <seconds>: absolute virtual time (TLC-generated scenarios name the due time of the timer they fire)
+		var sec int
+		fmt.Sscanf(arg(1), "%d", &sec)
+		if d := time.Duration(sec)*time.Second - c.el; d > 0 {
+			s.Adv(d)
+			c.el += d
+			c.snap()
+			return
+		}
+	case "replyid":
+		// replyid <pipe> <n> hi|lo: a reply carrying the n-th id this socket issues (issued already or not), with or
+		// without the request bit (TLC-generated scenarios)
+		p := c.pipes[arg(1)]
+		if p == nil || p.IsClosed() {
+			break
+		}
+		var n uint32
+		fmt.Sscanf(arg(2), "%d", &n)
+		id := (c.base&0x7fffffff + n) & 0x7fffffff
+		if arg(3) == "hi" {
+			id |= 0x80000000
+		}
+		c.nrep++
+		b := make([]byte, 4)
+		binary.BigEndian.PutUint32(b, id)
+		b = append(b, []byte(fmt.Sprintf("r%d", c.nrep))...)
+		c.last = b
+		p.Inject(b)
 	case "cclose":
 		i := ci(arg(1))
 		if i > 0 {
@@ -479,10 +511,58 @@ func reqDeadline() []reqCfg {
 	return out
 }
 
+// reqFromTLC loads the scenarios TLC generated from spec/mc/MC_ReqScn.tla (one JSON object per line: the name of the
+// option mix of the model and the step strings) and picks a seeded sample of them.
+func reqFromTLC(path string, rng *rand.Rand, n int) []reqCfg {
+	sec := time.Second
+	mixes := map[string][]reqCtxOpt{
+		"retry": {{Retry: 5 * sec}, {Retry: 0}},
+		"deadl": {{Retry: 5 * sec, SendExp: 2 * sec}, {Retry: 5 * sec, RecvExp: 3 * sec}},
+		"be":    {{Retry: 5 * sec, BestEffort: true}, {Retry: 0, RecvExp: 3 * sec, FailNoPeers: true}},
+	}
+	data, err := os.ReadFile(path)
+	if err != nil {
+		panic(err)
+	}
+	var all []reqCfg
+	for _, ln := range strings.Split(string(data), "\n") {
+		if strings.TrimSpace(ln) == "" {
+			continue
+		}
+		var x struct {
+			Opt   string   `json:"opt"`
+			Steps []string `json:"steps"`
+		}
+		if err := json.Unmarshal([]byte(ln), &x); err != nil {
+			panic(err)
+		}
+		o, ok := mixes[x.Opt]
+		if !ok {
+			panic("unknown option mix " + x.Opt)
+		}
+		all = append(all, reqCfg{Opts: o, Steps: x.Steps})
+	}
+	rng.Shuffle(len(all), func(i, j int) { all[i], all[j] = all[j], all[i] })
+	if n < len(all) {
+		all = all[:n]
+	}
+	return all
+}
+
 func TestReq(t *testing.T) {
 	out := newOut(t, "req")
 	defer out.Close()
 	rng := rand.New(rand.NewSource(seed()))
+	if f := os.Getenv("VERIF_SCN_FILE"); f != "" {
+		for i, cfg := range reqFromTLC(f, rng, count(400, 1000000)) {
+			if out.Stop() {
+				break
+			}
+			res := runReq(t, cfg)
+			out.Add(fmt.Sprintf("reqscn-%d", i), reqCfgEv(cfg), fmt.Sprint(cfg), res)
+		}
+		return
+	}
 	cfgs := reqScripted()
 	if os.Getenv("VERIF_MIX") == "deadline" {
 		cfgs = reqDeadline()
